@@ -29,6 +29,8 @@ B = N.sym('B')
 def _ip(prog, raw_items=False):
     ip = Interp(prog)
     NAT.install_containers(ip, domain_transforms=False, tables=False, matrixarray=not raw_items)
+    # IdentityMatrixArray(...) == identity matrices whatever `data` is passed: summary justified by R13.I on every run
+    ip.natives[('IdentityMatrixArray', '__new__')] = NAT.identity_new
     return ip
 
 
@@ -116,6 +118,16 @@ def _others(ip):
             ('ndarray', Arr(N.sym('v'), 'other_array', ip), N.sym('v'))]
 
 
+_OWN_ATTRS = ('data', 'space', 'types', 'rank', 'length', 'typeMap')
+
+
+def _new_cache_attr(ev):
+    """a bind event that creates a *new* attribute (not one of the documented MatrixArray fields) on an operand: harmless
+    by itself; whether it retains a result buffer or carries state between calls is decided by R13.h"""
+    name = (ev['target'] or '').split('.')[-1]
+    return name not in _OWN_ATTRS and not ev.get('existed')
+
+
 def rule_arithmetic(ctx, rules=('R13.3', 'R13.4', 'R13.5', 'R13.8')):
     """semantics, freshness / in-place discipline and metadata of the binary operators"""
     cls = ctx.prog.cls(MA)
@@ -184,7 +196,7 @@ def rule_arithmetic(ctx, rules=('R13.3', 'R13.4', 'R13.5', 'R13.8')):
                     bad.append('result data is a view of %s' % (rdata.base.origin or 'an array'))
                 elif isinstance(rdata, Arr) and not rdata.fresh:
                     bad.append('result data is the pre-existing array %s' % rdata.origin)
-                for x in writes + binds:
+                for x in writes + [b_ for b_ in binds if not _new_cache_attr(b_)]:
                     bad.append('modifies %s at %s' % (x['target'], x['loc']))
                 if bad:
                     ctx.violation('R13.3', construct, 'fresh:' + kind, '; '.join(bad), m.loc())
@@ -244,7 +256,7 @@ def rule_dot_invert(ctx, rule='R13.6'):
                 if rdata is adata or rdata is bdata or (isinstance(rdata, Arr) and not rdata.fresh):
                     bad.append('result shares data with an operand')
                 for x in evs:
-                    if x['kind'] in ('write', 'bind'):
+                    if x['kind'] in ('write', 'bind') and not (x['kind'] == 'bind' and _new_cache_attr(x)):
                         bad.append('modifies %s at %s' % (x['target'], x['loc']))
                 if a.attrs['data'] is not adata:
                     bad.append('self.data rebound by an out-of-place call')
@@ -382,3 +394,90 @@ def rule_identity(ctx, rule='R13.I'):
         ctx.holds(rule, cls.qualname, 'zeros((length,rank,rank)) then data[:,i,i]=1 for i in range(rank); space/types passed to MatrixArray.__init__', m.loc())
     else:
         ctx.undecided(rule, cls.qualname, 'identity construction idiom not recognised: %s' % src, m.loc())
+
+
+# ---------------------------------------------------------------------------------------------
+# two-call histories and subclass receivers
+# ---------------------------------------------------------------------------------------------
+def _receivers(prog):
+    """MatrixArray itself and every concrete subclass (an operator inherited by IdentityMatrixArray runs with
+    self of that class: `self.__class__(...)` / `type(self)(...)` then build the result through *its* constructor)"""
+    base = prog.cls(MA)
+    out = [base]
+    for c in prog.subclasses_of('MatrixArray'):
+        if c is not base:
+            out.append(c)
+    return out
+
+
+def _heap_of(v):
+    from .prism import reachable
+    return {id(a) for a in reachable(v)['arr']}
+
+
+def rule_history(ctx, rule='R13.h'):
+    """Out-of-place members, dot/invert(inplace=False) and get_copy, called twice on the same left operand (the second
+    time with another right operand), for a receiver of every MatrixArray class: both results are new objects whose
+    data (i) equals the per-matrix operation on the operands of *that* call, (ii) is not reachable from either operand
+    after the call (no retained buffer), (iii) is a different array for the two calls, and (iv) the first result is
+    unchanged by the second call.  By induction every call history yields independent results."""
+    from ..interp import explore
+    cls0 = ctx.prog.cls(MA)
+    n = 0
+    members = [(nm, BIN[nm][0]) for nm in sorted(BIN) if not BIN[nm][1] and cls0.find_method(nm) is not None]
+    members += [('dot', lambda a, b: N.fn('dot', a, b)), ('invert', lambda a, b: N.fn('inv', a)), ('get_copy', lambda a, b: a)]
+    for rcls in _receivers(ctx.prog):
+        for name, build in members:
+            m = rcls.find_method(name)
+            if m is None:
+                continue
+            construct = '%s.%s' % (MA, name)
+            tag = 'receiver %s' % rcls.name
+
+            def run(preset, name=name, rcls=rcls):
+                ip = _ip(ctx.prog)
+                ip.preset = list(preset)
+                a = W.matrixarray(ip, 'A', 'Real', origin='self')
+                a.cls = rcls
+                b1 = W.matrixarray(ip, 'B1', 'Real', origin='other1')
+                b2 = W.matrixarray(ip, 'B', 'Real', origin='other')
+                nargs = 0 if name in ('invert', 'get_copy') else 1
+                r1 = _call(ip, a, name, [b1][:nargs])
+                t1 = W.attr_term(ip, r1.attrs.get('data')) if isinstance(r1, Obj) else None
+                r2 = _call(ip, a, name, [b2][:nargs])
+                return ip, {'a': a, 'b1': b1, 'b2': b2, 'r1': r1, 'r2': r2, 't1': t1}
+            try:
+                worlds = explore(run)
+            except (Unsupported, Raised) as e:
+                ctx.undecided(rule, construct, '%s: %s' % (tag, e), m.loc())
+                continue
+            n += 1
+            bad = []
+            for dec, ip, w in worlds:
+                a, r1, r2 = w['a'], w['r1'], w['r2']
+                if not (isinstance(r1, Obj) and isinstance(r2, Obj) and r1.isa('MatrixArray') and r2.isa('MatrixArray')):
+                    bad.append('does not return a MatrixArray')
+                    continue
+                d1, d2 = r1.attrs.get('data'), r2.attrs.get('data')
+                root1 = d1.base if isinstance(d1, View) else d1
+                root2 = d2.base if isinstance(d2, View) else d2
+                if r1 is r2 or root1 is root2:
+                    bad.append('two successive calls return the same data array (the first result is overwritten by the second)')
+                t1_now = W.attr_term(ip, d1)
+                if w['t1'] is not None and t1_now is not None and not P.is_pw(t1_now) and not t1_now.equals(w['t1']):
+                    bad.append('the first result changes when the member is called again: %s becomes %s'
+                               % (N.show(w['t1'])[:80], N.show(t1_now)[:80]))
+                want2 = build(A, B)
+                t2 = W.attr_term(ip, d2)
+                if t2 is None or P.is_pw(t2) or not t2.equals(want2):
+                    bad.append('second call returns %s, expected %s' % (P.show(t2)[:120] if t2 is not None else d2, N.show(want2)))
+                held = _heap_of(a) | _heap_of(w['b1']) | _heap_of(w['b2'])
+                for which, root in (('first', root1), ('second', root2)):
+                    if isinstance(root, Arr) and id(root) in held:
+                        bad.append('the data of the %s result stays reachable from an operand after the call (retained buffer)' % which)
+            if bad:
+                ctx.violation(rule, construct, 'history:' + rcls.name, '%s: %s' % (tag, '; '.join(sorted(set(bad)))), m.loc())
+            else:
+                ctx.holds(rule, construct, '%s: two successive calls give independent, correct results (%d path(s))'
+                          % (tag, len(worlds)), m.loc(), key=rcls.name)
+    ctx.floor(rule, n, 2 * 9, 'out-of-place member x receiver class')
